@@ -2001,7 +2001,8 @@ func (sa *Application) removeAllocationInternal(allocationKey string, releaseTyp
 
 		// When the resource trackers are zero we should not expect anything to come in later.
 		if sa.hasZeroAllocations() {
-			removeApp = true
+			// placeholders that are still allocated keep counting against the user: the application stays tracked
+			removeApp = resources.IsZero(sa.allocatedPlaceholder)
 			event = CompleteApplication
 			eventWarning = "Application state not changed to Completing while removing an allocation"
 		}
